@@ -3,6 +3,7 @@
 Clean(rule) = the rule holds no cross-file evidence and no content cache. __init__ establishes it (structural check
 c08-init-clean in contracts/c08_frames.py), check() may leave it (evidence of THIS run), finalize() must re-establish
 it -- otherwise a long-lived Linter reports, on its next call, things it saw in an earlier one."""
+from pyvc import api as _api
 from pyvc.api import contract, lemma, Int, Bool, Str, Dict, SeqOf, Rec, Opt, Opaque, Any, implies, uf
 from pyvc.ex_call import EXTERNALS
 from pyvc.ty import VNone
@@ -18,15 +19,25 @@ IG = "src/linter_config/ignore.py::"
 Viols = SeqOf(ViolationT)
 
 # ------------------------------------------------------------------ abstract state of the two cross-file rules
-DupStorageT = Opaque("DuplicateStorage")         # in-memory / tempfile sqlite store of code blocks: THE cross-file evidence
 StrStorageT = Opaque("StringlyStorage")
 FileAnalyzerT = Opaque("FileAnalyzer")
 ConstEntryT = Opaque("ConstantEntry")            # (Path, ConstantInfo)
-DRYConfigT = Rec("DRYConfig", cls="src/linters/dry/config.py::DRYConfig", detect_duplicate_constants=Bool,
-                 min_constant_occurrences=Int)
+try:
+    # the DRY report pipeline is C03's (contracts/c03_report.py, verified): use its record types and its contract
+    from contracts.c03_report import StorageT as DupStorageT, IgnoreCtxT, GeneratorT as DryVGT
+    from contracts.c05_config import DRYConfigT
+    from contracts.c04_checkers import InlineParserT
+    C03_AVAILABLE = True
+except BaseException:  # noqa
+    C03_AVAILABLE = False
+    DupStorageT = Opaque("DuplicateStorage")     # sqlite store of code blocks: THE cross-file evidence
+    DRYConfigT = Rec("DRYConfig", cls="src/linters/dry/config.py::DRYConfig", detect_duplicate_constants=Bool,
+                     min_constant_occurrences=Int)
+    InlineParserT = Rec("InlineIgnoreParser", cls=DRYII + "InlineIgnoreParser", _ignore_ranges=Dict)
+    DryVGT = Rec("ViolationGenerator", cls=DRYVG + "ViolationGenerator")
+    IgnoreCtxT = Rec("IgnoreContext", cls=DRYVG + "IgnoreContext", inline_ignore=InlineParserT, shared_parser=ParserT,
+                     file_contents=Dict)
 StrConfigT = Rec("StringlyTypedConfig", cls="src/linters/stringly_typed/config.py::StringlyTypedConfig", enabled=Bool)
-InlineParserT = Rec("InlineIgnoreParser", cls=DRYII + "InlineIgnoreParser", _ignore_ranges=Dict)
-DryVGT = Rec("ViolationGenerator", cls=DRYVG + "ViolationGenerator")
 CVBuilderT = Rec("ConstantViolationBuilder", cls="src/linters/dry/constant_violation_builder.py::ConstantViolationBuilder",
                  min_occurrences=Int)
 DryHelpersT = Rec("DRYComponents", cls=DRY + "DRYComponents", violation_generator=DryVGT, inline_ignore=InlineParserT,
@@ -34,15 +45,11 @@ DryHelpersT = Rec("DRYComponents", cls=DRY + "DRYComponents", violation_generato
 DRYRuleT = Rec("DRYRule", cls=DRY + "DRYRule", _storage=Opt(DupStorageT), _initialized=Bool, _config=Opt(DRYConfigT),
                _file_analyzer=Opt(FileAnalyzerT), _project_root=Opt(PathT), _constants=SeqOf(ConstEntryT),
                _file_contents=Dict, _helpers=DryHelpersT)
-IgnoreCtxT = Rec("IgnoreContext", cls=DRYVG + "IgnoreContext", inline_ignore=InlineParserT, shared_parser=ParserT,
-                 file_contents=Dict)
 StrVGT = Rec("ViolationGenerator", cls=STRVG + "ViolationGenerator")
 StrHelpersT = Rec("StringlyTypedComponents", cls=STR + "StringlyTypedComponents", violation_generator=StrVGT)
 StrRuleT = Rec("StringlyTypedRule", cls=STR + "StringlyTypedRule", _storage=Opt(StrStorageT), _initialized=Bool,
                _config=Opt(StrConfigT), _helpers=StrHelpersT)
 
-dry_report = uf("dry_report", [DupStorageT, Str], Viols)            # what the stored evidence yields (C03's business)
-str_report = uf("stringly_report", [StrStorageT, Str], Viols)
 
 
 def _x_storage_close(ex, args, kwargs, lineno):
@@ -62,13 +69,18 @@ class IgnoreParserInit:
         return implies(project_root is not None, self.project_root == project_root)
 
 
-@contract(DRYVG + "ViolationGenerator.generate_violations", props=["C08", "C03"],
-          types=dict(self=DryVGT, storage=DupStorageT, rule_id=Str, config=DRYConfigT, ignore_ctx=IgnoreCtxT), returns=Viols,
-          assumed="C03's business (duplicate hashes -> violations, filters, inline ignores): here only 'a function of the "
-                  "stored evidence'; it does not modify the rule")
-class DryGenerateViolations:
+class DryGenerateViolationsStandIn:
+    """Only registered while contracts/c03_report.py (owner of this target, verified pipeline contract) is unavailable."""
     def ensures(result):
         return True
+
+
+if not C03_AVAILABLE and DRYVG + "ViolationGenerator.generate_violations" not in _api.REGISTRY:
+    contract(DRYVG + "ViolationGenerator.generate_violations", props=["C08"],
+             types=dict(self=DryVGT, storage=DupStorageT, rule_id=Str, config=DRYConfigT, ignore_ctx=IgnoreCtxT), returns=Viols,
+             raises=["OSError"],
+             assumed="stand-in while contracts/c03_report.py is unavailable: a function of the stored evidence that does not "
+                     "modify the rule")(DryGenerateViolationsStandIn)
 
 
 @contract(DRY + "_generate_constant_violations", props=["C08"],
@@ -126,7 +138,7 @@ def str_clean(r):
     return r._storage is None and not r._initialized and r._config is None
 
 
-@contract(DRY + "DRYRule.finalize", props=["C08"], types=dict(self=DRYRuleT, violations=Viols), returns=Viols,
+@contract(DRY + "DRYRule.finalize", props=["C08"], types=dict(self=DRYRuleT, violations=Viols), returns=Viols, raises=["OSError"],
           modifies=["self._constants", "self._file_contents", "self._helpers.inline_ignore._ignore_ranges",
                     "self._helpers.constant_violation_builder.min_occurrences"])
 class DryFinalize:
@@ -141,6 +153,14 @@ class DryFinalize:
         # _initialized, _config, _file_analyzer and _project_root are left as they were)
         return implies(old.self._storage is not None and old.self._config is not None,
                        self._constants == [] and self._file_contents == {} and self._helpers.inline_ignore._ignore_ranges == {})
+
+    def ensures_evidence_survives(self, old):
+        # finding, stated positively and PROVED: after finalize() the rule still holds the block store, the first
+        # call's config and the initialised flag -- i.e. Clean provably does NOT hold (this is what makes the next
+        # lint call on the same object see the previous run's files)
+        return implies(old.self._storage is not None and old.self._config is not None,
+                       self._storage is not None and self._config is not None and self._initialized == old.self._initialized
+                       and not dry_clean(self))
 
     def ensures_nothing_collected_nothing_reported(self, result, old):
         return implies(old.self._storage is None or old.self._config is None, result == [])
